@@ -155,7 +155,7 @@ func main() {
 						return true
 					}
 					name := sel.Sel.Name
-					if name != "Lock" && name != "Unlock" {
+					if name != "Lock" && name != "Unlock" && name != "RLock" && name != "RUnlock" {
 						return true
 					}
 					s := info.Selections[sel]
@@ -167,7 +167,10 @@ func main() {
 						return true
 					}
 					recv := fn.Type().(*types.Signature).Recv().Type().String()
-					if recv != "*sync.Mutex" {
+					if recv != "*sync.Mutex" && recv != "*sync.RWMutex" {
+						return true
+					}
+					if (name == "RLock" || name == "RUnlock") && recv != "*sync.RWMutex" {
 						return true
 					}
 					x := string(src[off(sel.X.Pos()):off(sel.X.End())])
